@@ -467,6 +467,23 @@ def explicit_edges_loop(n_cont, gate_kind="route"):
     return prog, [["messages", "in.messages"], ["query", "in.query"]], meta
 
 
+def inferred_edges(prog):
+    """The data edges name inference creates for a flat program with unique producers (None otherwise):
+    declaring exactly these with Graph(nodes, edges=...) must not change anything."""
+    prod = {}
+    for n in prog["nodes"]:
+        for o in n["outputs"]:
+            if o in prod:
+                return None
+            prod[o] = n["name"]
+    edges = []
+    for n in prog["nodes"]:
+        for p in n["inputs"]:
+            if p in prod and [prod[p], n["name"]] not in edges:
+                edges.append([prod[p], n["name"]])
+    return edges
+
+
 def rename_nodes(prog, mapping):
     """Consistently rename nodes (names, gate targets, scripts, entry points)."""
     import copy as _c
